@@ -80,6 +80,12 @@ func (p *Projector) Feed(e mem.Ev) {
 	if e["k"] == "x-global" && p.Proj != nil && !p.Proj.Global {
 		return
 	}
+	if e["k"] == "x-intact" {
+		if p.Proj != nil && p.Proj.Intact {
+			p.Out = append(p.Out, M{"k": "x-intact", "ok": e["ok"]})
+		}
+		return
+	}
 	if e["k"] == "x-parseparams" {
 		p.Out = append(p.Out, M{"k": "x-parseparams", "toks": Clean(e["toks"]), "n": e["n"], "allzero": e["allzero"]})
 		return
